@@ -34,6 +34,7 @@ class Wallet:
             return bytes(rng.randrange(256) for _ in range(k))
         self.roots = [hd.HDPrivateKey.from_seed(rb(32), network="testnet") for _ in range(n)]
         base = "m/45'/1'"
+        self.bip32base, self.reuse = base, reuse
         self.tx_lookup, self.pubkey_lookup, self.redeem_lookup, self.witness_lookup = {}, {}, {}, {}
         outs_prev = []
         for j in range(nin):
@@ -96,7 +97,7 @@ def flow(args):
     kind, m, n, nin, seed, tag, full = args
     cases = []
     try:
-        w = Wallet(kind, m, n, nin, seed)
+        w = Wallet(kind, m, n, nin, seed, reuse=tag.endswith("_reuse"))
     except Exception as e:
         import traceback
         return [{"error": "%s: %s" % (tag, traceback.format_exc()[-1200:])}]
@@ -108,6 +109,22 @@ def flow(args):
         return raw
     log_psbt("base", w.base, [0] * nin)
     nsign = signers_needed(kind, n)
+    # the two signing entry points agree: sign(hd root) and sign_with_private_keys(the signer's keys for the inputs), also when
+    # one key locks several inputs (address reuse)
+    for s in range(nsign):
+        c1, c2 = w.clone(), w.clone()
+        r1 = outcome(c1.sign, w.roots[s])
+        keys, seen = [], set()
+        for j in range(nin):
+            pk = w.roots[s].traverse("%s/0/%d" % (w.bip32base, 0 if w.reuse else j)).private_key
+            if pk.secret not in seen:
+                seen.add(pk.secret)
+                keys.append(pk)
+        w.rng.shuffle(keys)
+        r2 = outcome(c2.sign_with_private_keys, keys)
+        a_ = c1.serialize() if r1 == ("ok", True) else b"sign-did-not-sign"
+        b_ = c2.serialize() if r2 == ("ok", True) else b"sign_with_private_keys-did-not-sign"
+        cases.append({"id": "%s.api.%d" % (tag, s), "kind": "eq", "a": B(b_), "b": B(a_), "what": "sign_with_private_keys-differs-from-sign", "label": "signing-api"})
     subsets = [s for r_ in range(0, nsign + 1) for s in itertools.combinations(range(nsign), r_)]
     for sub in subsets:
         results = {}
@@ -292,6 +309,9 @@ def run(ctx):
         combos += [(k, m, n, nin) for k in ("p2sh", "p2wsh", "p2sh-p2wsh") for n in (1, 2, 3, 4) for m in range(1, n + 1) for nin in (1, 3)] + [("p2pkh", 1, 1, 3), ("p2wpkh", 1, 1, 3)]
     for ci, (kind, m, n, nin) in enumerate(combos):
         jobs.append((kind, m, n, nin, rng.randrange(2 ** 60), "%s_%dof%d_%din_%d" % (kind, m, n, nin, ci), not q))
+    # wallets whose inputs all pay to one address (one key locks several inputs)
+    for ci, (kind, m, n, nin) in enumerate([("p2wpkh", 1, 1, 2), ("p2sh", 1, 2, 2), ("p2wsh", 2, 3, 2)] + ([] if q else [("p2pkh", 1, 1, 3), ("p2sh-p2wpkh", 1, 1, 2), ("p2sh-p2wsh", 2, 2, 3)])):
+        jobs.append((kind, m, n, nin, rng.randrange(2 ** 60), "%s_%dof%d_%din_%d_reuse" % (kind, m, n, nin, ci), False))
     cases = []
     with ProcessPoolExecutor(max_workers=NCPU) as ex:
         for res in ex.map(flow, jobs):
